@@ -3,7 +3,7 @@ CONSTANTS
   MinFirst = 8
   MaxPow = 3
   Sizes <- SizesT
-  MaxWrites = 4
+  MaxWrites = 3
   ReadSizes <- ReadsQ
   EofStyles = {"separate"}
   CutAll = TRUE
